@@ -73,6 +73,11 @@ _SEQS = [
     [{"method": "run", "input": "1 + 1\n40 + 2\n", "offset": 6, "end_offset": 12}],
 ]
 WITNESSES = [
+    {"match": r"reqspan\..*creates_the_namespace_first", "kind": "session-alive", "props": ["C09"], "expect": {},
+     "input": [[{"method": "eval_up_to", "src": "let v = 1\nv + 1\n", "offset": 10, "path": "/tmp/unseen_a.gdn"}, "40 + 2"],
+               [{"method": "run", "input": "let v = 1\nv + 1\n", "path": "/tmp/unseen_r.gdn"}, "40 + 2"],
+               [{"method": "load", "input": "fun f() { f }\n", "path": "/tmp/unseen_l.gdn", "offset": 0, "end_offset": 14}, "40 + 2"]],
+     "note": "requests naming a file the session has not seen"},
     {"match": r"reqspan\.", "kind": "session-alive", "props": ["C09"], "input": _SEQS, "expect": {},
      "note": "run / load requests whose offsets lie past the end of the input or inside a multi-byte character, and one valid inner span"},
 ]
@@ -149,6 +154,33 @@ def _slice_handler(u, src, hname, props):
                       "the call passes `input, offset, end_offset`, the variables span_in_input was asked about, none rebound in between"))
 
 
+NS_USERS = r"\b(eval_up_to|check_toplevel_items_in_env|load_toplevel_items_with_stubs|eval_toplevel_items)\s*\("
+
+
+def _namespace_first(u, src, hname, props):
+    """the type checker looks variables up in the namespace of the path it is given and panics when there is none
+    (TypeCheckVisitor::get_var): a handler creates the namespace of the request's path before anything checks or
+    evaluates items of that path"""
+    host = src.find_fn(hname)
+    body = host.text
+    made = re.search(r"\benv\s*\.\s*get_or_create_namespace\s*\(\s*&\s*(abs_)?path\s*\)", body)
+    uses = [m.start() for m in re.finditer(NS_USERS, body)]
+    if not uses:
+        raise ExtractError("%s: no call that checks or evaluates items found" % hname)
+    bad = sum(1 for x in uses if made is None or made.start() > x)
+    sname = "%s_creates_the_namespace_first" % hname
+    u.fn_props[sname] = props
+    u.skeletons[sname] = skeleton_hash(host.text)
+    u.items.append({"name": "%s (namespace of the request's path exists before items are checked)" % hname, "generated_as": sname, "kind": "structural",
+                    "where": host.where, "sha256_16": host.sha(), "skeleton": u.skeletons[sname]})
+    tag = Tag("repo", fn=sname, repo_file=JS, repo_line=host.line0, props=props)
+    u.emit("pub fn %s() -> (n: u64)" % sname, tag)
+    u.emit("    ensures n == 0,", Tag("repo", fn=sname, clause="post[namespace_created_before_items_are_checked]", repo_file=JS, repo_line=host.line0, props=props))
+    u.emit("{ %d }" % bad, tag)
+    u.clauses.append(("reqspan.%s.post[namespace_created_before_items_are_checked]" % sname, props,
+                      "env.get_or_create_namespace(&path) precedes every call that type-checks or evaluates the items of the request"))
+
+
 def build(tier):
     u = UnitFile("reqspan")
     u.raw(common.HEADER)
@@ -163,6 +195,8 @@ def build(tier):
     src = u.source(JS)
     for h in ("handle_load_request", "handle_run_eval_request"):
         _slice_handler(u, src, h, props)
+    for h in ("handle_load_request", "handle_run_eval_request", "handle_eval_up_to_request"):
+        _namespace_first(u, src, h, props)
     u.add_canary_proof()
     u.raw(common.FOOTER)
     return u
